@@ -60,4 +60,5 @@ f89ce52 C13 C10
 bc0d713 C10
 9500a73 C14
 894c061 C14
+4d9c9d1 C15 C01
 LIST
